@@ -148,6 +148,11 @@ type tx struct {
 func (t *tx) Commit() error {
 	ev, err := t.c.before("commit", "")
 	if err != nil {
+		// a failed COMMIT: like the real driver on SQLITE_BUSY (and SQLite
+		// itself on I/O errors) the transaction is rolled back
+		t.t.Rollback()
+		t.c.inTx = false
+		t.c.after(ev, err)
 		return err
 	}
 	err = t.t.Commit()
